@@ -402,7 +402,7 @@ func parseStyleDecls(style string) []styleDecl {
 	}
 
 	// Split by semicolon to get individual properties
-	parts := strings.Split(style, ";")
+	parts := splitStyleDecls(style)
 	for _, part := range parts {
 		part = strings.TrimSpace(part)
 		if part == "" {
@@ -419,6 +419,34 @@ func parseStyleDecls(style string) []styleDecl {
 	}
 
 	return result
+}
+
+// splitStyleDecls cuts a style attribute value at the semicolons that separate
+// declarations: not at one inside parentheses (url(data:image/png;base64,...))
+// or inside a quoted string.
+func splitStyleDecls(style string) []string {
+	var parts []string
+	start, depth := 0, 0
+	quote := byte(0)
+	for i := 0; i < len(style); i++ {
+		ch := style[i]
+		switch {
+		case quote != 0:
+			if ch == quote {
+				quote = 0
+			}
+		case ch == '"' || ch == '\'':
+			quote = ch
+		case ch == '(':
+			depth++
+		case ch == ')' && depth > 0:
+			depth--
+		case ch == ';' && depth == 0:
+			parts = append(parts, style[start:i])
+			start = i + 1
+		}
+	}
+	return append(parts, style[start:])
 }
 
 // setStyleDecl updates the declaration of key in place, or appends it.
